@@ -263,7 +263,9 @@ def _execute_short(sc):
                 else:
                     want = d
                     tot = sum(got.values())
-                    if abs(tot - 1.0) > 1e-8:
+                    # a viable context whose prefix weight is below the library's absolute
+                    # fixed-point tolerance may legitimately come out as all-zero
+                    if abs(tot - 1.0) > 1e-8 and not (pc < 1e-9 and tot == 0):
                         out.violation(f"lm:not-normalised:{be}", sig=sig, ctx=list(ctx), total=repr(tot), schedule=si)
                     tolf = lambda w: 1e-7 + 1e-9 / pc + 1e-6 * abs(w)  # noqa
                 if pc < 1e-6:
